@@ -59,6 +59,7 @@ class EvaluateAhb:
     C06); anything a user-supplied evaluator raises"""
     params = dict(parsed_tree=Raw(lambda ex, st, n: Opaque("inst:Tree", Str().make(ex, st, "expr"))))
     raises = {"InvalidExpressionError": None, "Exception": None, "NotImplementedError": None}
+    never_raises = ["VisitError"]  # lark's wrapper must not escape: the callback's own exception does
 
     def hook(ex, st, bound):
         from pyvc import ghosts
